@@ -471,6 +471,7 @@ func c19ClassCase(s Src, tag string) *Case {
 	}
 	cs := &Case{Prop: "C19", Kind: "class", Sig: fmt.Sprintf("class:%s:%s@%s", class, errName, where), Program: program, Notes: []string{tag}}
 	base := scriptCfg(program, stdin.String())
+	base.TTY = drawTTY(s)
 	c1, d1 := drawDelivery(s, base)
 	cs.Runs = []Run{{Role: "line", Cfg: withDelivery(base, "line")}}
 	if nin > 0 {
